@@ -696,6 +696,17 @@ class ConstraintsIntersection(AbstractConstraintSet):
         for constraint in self._values:
             constraint(value, idx)
 
+    def __add__(self, value):
+        derived = AbstractConstraintSet.__add__(self, value)
+
+        if self:
+            # one more restriction leaves a subset of what this
+            # intersection admits: let it be recognised as a subtype
+            derived._valueMap.add(self)
+            derived._valueMap.update(self._valueMap)
+
+        return derived
+
 
 class ConstraintsUnion(AbstractConstraintSet):
     """Create a ConstraintsUnion logic operator object.
